@@ -88,3 +88,48 @@ func VerifC03Independent() {
 	}
 	nd.Reach("C03.independent")
 }
+
+var c03Setters = []string{
+	"{% assign zz = 1 %}{{ zz }}",
+	"{% capture cc %}x{{ cc }}{% endcapture %}{{ cc }}",
+	"{% for x in (1..2) %}{{ x }}{% endfor %}",
+	"{% tablerow y in (1..2) %}{{ y }}{% endtablerow %}",
+	"{% assign n = n | plus: 1 %}{{ n }}",
+	"{% for x in (1..2) %}{% cycle 'p', 'q' %}{% assign leak = x %}{% endfor %}",
+}
+
+// VerifC03Shapes: the same for every shape of the caller's top-level map — nil, empty but
+// non-nil, one entry — with templates that set variables: the render stores nothing into the
+// caller's map (frame check), the map keeps its size and gains no key, and a second render with
+// the same map is identical.
+func VerifC03Shapes() {
+	src := c03Setters[nd.Choice(len(c03Setters))]
+	var b Bindings
+	want := 0
+	switch nd.Choice(3) {
+	case 0:
+		b = nil
+	case 1:
+		b = Bindings{}
+	case 2:
+		b = Bindings{"n": nd.IntIn(-1, 1)}
+		want = 1
+	}
+	e := NewEngine()
+	tpl, perr := e.ParseString(src)
+	nd.Assert(perr == nil, "setter-parses")
+	if perr != nil {
+		return
+	}
+	nd.BeginRender()
+	out1, err1 := tpl.RenderString(b)
+	nd.EndRender()
+	nd.Assert(len(b) == want, "bindings-size-unchanged")
+	for _, name := range []string{"zz", "cc", "leak", "x", "y", "forloop", "tablerowloop"} {
+		_, present := b[name]
+		nd.Assert(!present, "template-variables-do-not-leak")
+	}
+	out2, err2 := tpl.RenderString(b)
+	nd.Assert((err1 == nil) == (err2 == nil) && out1 == out2, "second-render-identical")
+	nd.Reach("C03.shapes")
+}
